@@ -190,6 +190,12 @@ func scratch(name string) string {
 //	q := <rawhex>/<normhex>|<rawhex>/!   t := <hex>   p := <rawhex>/<tree>|<rawhex>/!
 //	stmt := <rawhex>/<normhex>/<tree> | <rawhex>/!
 func parseHandleArgs(a []string) (cfg ccfg, stmt string) {
+	cfg, i := parseCfgArgs(a)
+	return cfg, rawOf(a[i])
+}
+
+// parseCfgArgs decodes the configuration part and returns the index of the first token after it.
+func parseCfgArgs(a []string) (cfg ccfg, next int) {
 	cfg.Version = "0.85.0"
 	cfg.IgnoreParseError = a[0] == "1"
 	if a[1] == "1" {
@@ -238,7 +244,7 @@ func parseHandleArgs(a []string) (cfg ccfg, stmt string) {
 			panic("harness: bad handler kind " + kind)
 		}
 	}
-	return cfg, rawOf(a[i])
+	return cfg, i
 }
 
 func yamlOf(cfg ccfg) []byte {
